@@ -1,6 +1,7 @@
 package an
 
 import (
+	"os"
 	"fmt"
 	"go/token"
 	"go/types"
@@ -497,6 +498,8 @@ func (s *PathState) step(in ssa.Instruction) {
 			if n, ok := constLen(x.Common().Args[0]); ok {
 				k := fmt.Sprint(n)
 				t = &Term{K: "c:" + k, Op: "const", Aux: k, Folded: true, Int: n, V: x}
+			} else if len(ev.Args) == 1 && ev.Args[0] != nil && ev.Args[0].IsConst("nil") {
+				t = &Term{K: "c:0", Op: "const", Aux: "0", Folded: true, Int: 0, V: x} // len(nil) — e.g. a helper returned no entries
 			}
 		}
 		ev.Res = t
@@ -672,6 +675,14 @@ func negOp(op string) string {
 
 // addFact normalises (cond == truth) into atoms; returns false if it contradicts the path so far.
 func (s *PathState) addFact(t *Term, truth bool) bool {
+	ok := s.addFact0(t, truth)
+	if !ok && os.Getenv("VERIF_DEBUG_DROP") != "" {
+		fmt.Fprintf(os.Stderr, "DROP %s: %s == %v contradicts [%s]\n", s.BlockPath(), t.K, truth, s.FactsString())
+	}
+	return ok
+}
+
+func (s *PathState) addFact0(t *Term, truth bool) bool {
 	for t.Op == "unop" && t.Aux == "!" {
 		t = t.Args[0]
 		truth = !truth
@@ -1315,7 +1326,11 @@ func (s *PathState) exec(bi, ii int, target ssa.Instruction, emit func(*PathStat
 			if _, ok := in.(*ssa.Phi); ok {
 				continue
 			}
-			if g := inlineCallee(in); g != nil {
+			g := inlineCallee(in)
+			if g == nil {
+				g = s.tableCallee(in)
+			}
+			if g != nil {
 				call := in.(*ssa.Call)
 				ts, complete := templates(g, nil)
 				if !complete {
